@@ -84,7 +84,7 @@ def uniform_(tensor:Tensor, a=0.0, b=1.0) -> Tensor:
         >>> w = synapgrad.empty(3, 5)
         >>> nn.init.uniform_(w)
     """
-    tensor.data = np.random.uniform(a, b, tensor.shape).astype(tensor.dtype)
+    tensor.data[...] = np.random.uniform(a, b, tensor.shape).astype(tensor.dtype) # written into the storage the tensor has (views of it see the values)
     return tensor
     return np.random.uniform(low=-scale, high=scale, size=shape)
 
@@ -102,7 +102,7 @@ def normal_(tensor:Tensor, mean=0.0, std=1.0) -> Tensor:
         >>> w = synapgrad.empty(3, 5)
         >>> nn.init.normal_(w)
     """
-    tensor.data = np.random.normal(mean, std, tensor.shape).astype(tensor.dtype)
+    tensor.data[...] = np.random.normal(mean, std, tensor.shape).astype(tensor.dtype)
     return tensor
 
 
@@ -117,7 +117,7 @@ def constant_(tensor:Tensor, val) -> Tensor:
         >>> w = synapgrad.empty(3, 5)
         >>> nn.init.constant_(w)
     """
-    tensor.data = np.full(tensor.shape, val).astype(tensor.dtype)
+    tensor.data[...] = np.full(tensor.shape, val).astype(tensor.dtype)
     return tensor
 
 
@@ -131,7 +131,7 @@ def ones_(tensor:Tensor) -> Tensor:
         >>> w = synapgrad.empty(3, 5)
         >>> nn.init.ones_(w)
     """
-    tensor.data = np.ones(tensor.shape).astype(tensor.dtype)
+    tensor.data[...] = np.ones(tensor.shape).astype(tensor.dtype)
     return tensor
 
 
@@ -145,7 +145,7 @@ def zeros_(tensor:Tensor) -> Tensor:
         >>> w = synapgrad.empty(3, 5)
         >>> nn.init.zeros_(w)
     """
-    tensor.data = np.zeros(tensor.shape).astype(tensor.dtype)
+    tensor.data[...] = np.zeros(tensor.shape).astype(tensor.dtype)
     return tensor
 
 
